@@ -51,6 +51,7 @@ func run(c *vh.Ctx) {
 	// AGENTSEC_STRATA (development aid only) restricts the run to the named strata.
 	only := os.Getenv("AGENTSEC_STRATA")
 	on := func(s string) bool { return only == "" || strings.Contains(only, s) }
+	defer prepareOutputCerts()()
 	if on("grid") {
 		runGrid(c)
 	}
